@@ -22,7 +22,12 @@ RULE = ('one run = a seeded base history (FileStorage on the simulated '
         'oracle: the full query sweep against the single-copy model of '
         'base + changes (incl. end ids that join the layers), store '
         'outcomes, id freshness, and the base is byte-identical / '
-        'sweep-identical afterwards; non-trivial = >= 1 base and >= 2 demo '
+        'sweep-identical afterwards; a blob arm (8 %): a blob-enabled '
+        'FileStorage base with several blob revisions, wrapped read-only; '
+        'storage-level storeBlob with current and stale serials on blobs '
+        'of either layer, aborts after store/vote, new ids, loadBlob / '
+        'openCommittedBlobFile of every revision of both layers, base '
+        'data file and blob directory compared after every op; non-trivial = >= 1 base and >= 2 demo '
         'commits; distinct = (kinds, outcome sequence)')
 BUDGET = {'quick': {'runs': 10000, 'wall': 300, 'chunk': 25},
           'thorough': {'runs': 800000, 'wall': 1800, 'chunk': 100}}
@@ -36,6 +41,9 @@ SHRINK = ['ops', 'base_ops']
 
 def gen(seed, tier):
     r = random.Random(seed)
+    if r.random() < 0.08:
+        from . import c16blob
+        return c16blob.gen(ctx.subseed(seed, 'blob'), tier)
     bk = r.choice(('mapping', 'file', 'file'))
     ck = r.choice(('mapping', 'default', 'file', 'file'))
     noids = r.choice((2, 3, 5, 8))
@@ -68,6 +76,9 @@ def gen(seed, tier):
 
 
 def run(case):
+    if case.get('arm') == 'blob':
+        from . import c16blob
+        return c16blob.run(case)
     from ZODB.serialize import referencesf
     sim = ctx.activate(ctx.Sim(case['seed'], bufsize=case['bufsize'],
                                clock={'tick': case['tick']}))
